@@ -1,5 +1,5 @@
 //! C19 — chaos injection is reproducible and bounded; injected errors skip the inner call
-//! (engine C: full finite grid, two equally seeded instances run side by side).
+//! (engine C: full finite grid, three equally seeded instances (built with the builder calls in three different orders) run side by side).
 
 use serde_json::json;
 use std::time::Duration;
@@ -22,27 +22,38 @@ struct Obs {
 
 const N_REQ: usize = 24;
 
-/// `settings_first`: latency settings and seed are given before the (type-changing)
-/// error_rate/error_fn calls instead of after them - the two equally seeded instances of
-/// every grid point are built in the two different orders.
-fn run_instance(seed: Option<u64>, err_rate: f64, lat_rate: f64, min: u64, max: u64, settings_first: bool) -> Result<Vec<Obs>, String> {
+/// `order`: where the latency settings and the seed are given relative to the two
+/// type-changing builder calls error_rate(..) -> error_fn(..): 0 = after both, 1 = before
+/// both, 2 = between them (each builder type re-implements every setter by hand). The equally
+/// seeded instances of every grid point are built in all three orders.
+fn run_instance(seed: Option<u64>, err_rate: f64, lat_rate: f64, min: u64, max: u64, order: u8) -> Result<Vec<Obs>, String> {
     let w = World::new(0, 10, Mode::Script, 1);
     fn inject(_r: &Req) -> InnerErr {
         InnerErr { id: 4242, kind: 7 }
     }
     let inject: fn(&Req) -> InnerErr = inject;
-    let layer = if settings_first {
-        let mut b = ChaosLayer::builder().name("c19").latency_rate(lat_rate).min_latency(Duration::from_millis(min)).max_latency(Duration::from_millis(max));
-        if let Some(s) = seed {
-            b = b.seed(s);
+    let layer = match order {
+        1 => {
+            let mut b = ChaosLayer::builder().name("c19").latency_rate(lat_rate).min_latency(Duration::from_millis(min)).max_latency(Duration::from_millis(max));
+            if let Some(s) = seed {
+                b = b.seed(s);
+            }
+            b.error_rate(err_rate).error_fn(inject).build()
         }
-        b.error_rate(err_rate).error_fn(inject).build()
-    } else {
-        let mut b = ChaosLayer::builder().name("c19").error_rate(err_rate).error_fn(inject).latency_rate(lat_rate).min_latency(Duration::from_millis(min)).max_latency(Duration::from_millis(max));
-        if let Some(s) = seed {
-            b = b.seed(s);
+        2 => {
+            let mut b = ChaosLayer::builder().name("c19").error_rate(err_rate).latency_rate(lat_rate).min_latency(Duration::from_millis(min)).max_latency(Duration::from_millis(max));
+            if let Some(s) = seed {
+                b = b.seed(s);
+            }
+            b.error_fn(inject).build()
         }
-        b.build()
+        _ => {
+            let mut b = ChaosLayer::builder().name("c19").error_rate(err_rate).error_fn(inject).latency_rate(lat_rate).min_latency(Duration::from_millis(min)).max_latency(Duration::from_millis(max));
+            if let Some(s) = seed {
+                b = b.seed(s);
+            }
+            b.build()
+        }
     };
     let mut svc = layer.layer(GatedInner::new(w.inner.clone()));
     let mut out = vec![];
@@ -94,7 +105,7 @@ fn main() {
     }
     let tier = cli.tier;
     let mut rep = Report::new("C19", tier, "exploration");
-    rep.rule = "full grid: seeds {0..63 (quick) / 0..255 (thorough), 2^32-1, 2^64-1} x error rate {0, 0.3, 1} x latency rate {0, 0.5, 1} x latency range ms {(0,0),(5,5),(5,20),(20,5),(1200,1800),(2000,2000),(500,2500),(61000,62000),(3600000,1)} x 24 sequential requests; two equally seeded instances run side by side under virtual time and must make identical decisions and inject identical latencies. distinct = distinct (configuration, decision vector) pairs".into();
+    rep.rule = "full grid: seeds {0..63 (quick) / 0..255 (thorough), 2^32-1, 2^64-1} x error rate {0, 0.3, 1} x latency rate {0, 0.5, 1} x latency range ms {(0,0),(5,5),(5,20),(20,5),(1200,1800),(2000,2000),(500,2500),(61000,62000),(3600000,1)} x 24 sequential requests; three equally seeded instances (built with the builder calls in three different orders) run side by side under virtual time and must make identical decisions and inject identical latencies. distinct = distinct (configuration, decision vector) pairs".into();
     let mut seeds: Vec<u64> = (0..tier.pick(64u64, 256)).collect();
     seeds.push(u32::MAX as u64);
     seeds.push(u64::MAX);
@@ -110,22 +121,25 @@ fn main() {
             for lr in [0.0, 0.5, 1.0] {
                 for (min, max) in ranges {
                     let cfg = format!("seed={seed} error_rate={er} latency_rate={lr} latency=[{min},{max}]ms");
-                    let a = run_instance(Some(seed), er, lr, min, max, false);
-                    let b = run_instance(Some(seed), er, lr, min, max, true);
-                    rep.evaluations += 2 * N_REQ as u64;
-                    let (a, b) = match (a, b) {
-                        (Ok(a), Ok(b)) => (a, b),
-                        (Err(e), _) | (_, Err(e)) => {
+                    let a = run_instance(Some(seed), er, lr, min, max, 0);
+                    let b = run_instance(Some(seed), er, lr, min, max, 1);
+                    let c = run_instance(Some(seed), er, lr, min, max, 2);
+                    rep.evaluations += 3 * N_REQ as u64;
+                    let (a, b, c) = match (a, b, c) {
+                        (Ok(a), Ok(b), Ok(c)) => (a, b, c),
+                        (Err(e), _, _) | (_, Err(e), _) | (_, _, Err(e)) => {
                             viol(&mut rep, "not_transparent", cfg.clone(), e);
                             continue;
                         }
                     };
-                    if a != b {
-                        let i = a.iter().zip(b.iter()).position(|(x, y)| x != y).unwrap();
-                        viol(&mut rep, "not_reproducible", cfg.clone(), format!("two instances with seed {seed} differ at request {i}: {:?} vs {:?}", a[i], b[i]));
+                    for (name, other) in [("settings before error_rate", &b), ("settings between error_rate and error_fn", &c)] {
+                        if &a != other {
+                            let i = a.iter().zip(other.iter()).position(|(x, y)| x != y).unwrap();
+                            viol(&mut rep, "not_reproducible", cfg.clone(), format!("two instances with seed {seed} (builder order: settings last / {name}) differ at request {i}: {:?} vs {:?}", a[i], other[i]));
+                        }
                     }
                     let (lo, hi) = (min.min(max), min.max(max));
-                    for (i, o) in a.iter().enumerate() {
+                    for (i, o) in a.iter().enumerate().chain(b.iter().enumerate()).chain(c.iter().enumerate()) {
                         if o.result == "injected_error" && o.reached_inner {
                             viol(&mut rep, "injected_error_reached_inner", cfg.clone(), format!("request {i} got the injected error but the inner service was called"));
                         }
@@ -166,8 +180,8 @@ fn main() {
         }
     }
     // different seeds should not all coincide (vacuity guard for the seed plumbing)
-    let x = run_instance(Some(1), 0.3, 0.5, 5, 20, false);
-    let y = run_instance(Some(2), 0.3, 0.5, 5, 20, false);
+    let x = run_instance(Some(1), 0.3, 0.5, 5, 20, 0);
+    let y = run_instance(Some(2), 0.3, 0.5, 5, 20, 0);
     if let (Ok(x), Ok(y)) = (&x, &y) {
         if x != y {
             rep.witness("different_seeds_differ", 1);
